@@ -308,6 +308,22 @@ func c19Run(c *Ctx) {
 			}
 		}
 	}
+	// every runtime fault of C06's pool, at top level and inside a function: status 70, diagnostics on stderr only
+	for _, f := range c06Faults() {
+		body := Print(f.expr)
+		if f.stmt != "" {
+			body = f.stmt
+		}
+		for wi, wrap := range []string{"%s", Fun("wrapf", "", " %s ") + " wrapf();"} {
+			if f.stmt != "" && wi == 1 {
+				continue
+			}
+			src := Lines(append(c06Prelude(), Print(`"start"`), fmt.Sprintf(wrap, body), Print(`"end"`))...)
+			if c.Mine() {
+				c19Judge(c, &Case{Gen: "every-runtime-fault", Src: src, Stdin: "a\nb\n", X: map[string]string{"tail": "runtime-" + f.name}})
+			}
+		}
+	}
 	// how the script text ends (no final newline, comment as the very last bytes, blanks, CR)
 	for _, body := range []string{Print("1"), Lines(Print(`"a"`), Print("1 / 0")), Lines(Print(`"a"`), "@"), "", Lines(Var("x", BI("input")), Print("x"))} {
 		for _, end := range []string{"", "/* done */", " /**/", "// done", "//", "\n/* multi\nline */", "\r\n", "\t ", "\n\n/* a */ /* b */"} {
